@@ -1138,7 +1138,7 @@ func genC02Input(r *Rng, eps []entryPoint) c02Input {
 	in.Flags = int64(r.U64()) & c02ToggleMask
 	if in.Mode == "color" {
 		in.TagW = 1 + r.Intn(5)
-		in.MinW = []int{36, 36, 16, 50}[r.Intn(4)]
+		in.MinW = []int{36, 36, 16, 50, 200, 165}[r.Intn(6)]
 	}
 	sev := in.Sev
 	if sev == sevNever {
